@@ -33,7 +33,9 @@ func (s *Store) ImportedServicesForPartition(ws memdb.WatchSet, partition string
 }
 
 func importedServicesForPartitionTxn(tx ReadTxn, ws memdb.WatchSet, entMeta *acl.EnterpriseMeta) (uint64, []*pbconfigentry.ImportedService, error) {
-	maxIdx := uint64(0)
+	// Start from the table index: a deleted entry changes the result but cannot
+	// raise the max ModifyIndex of the entries that remain.
+	maxIdx := maxIndexTxn(tx, tableConfigEntries)
 
 	// Get all service intentions that have a source peer set
 	// This indicates services that are imported from that peer
